@@ -31,5 +31,10 @@ Definition documented : facts := {|
     if isinstance(self.allow_unknown, Mapping):
         self._schema = {}
     else:
-        raise SchemaError(errors.SCHEMA_ERROR_MISSING)"; "if document is None: raise DocumentError(errors.DOCUMENT_MISSING)"; "if not isinstance(document, Mapping): raise DocumentError(errors.DOCUMENT_FORMAT.format(document))"; "self.error_handler.start(self)"]
+        raise SchemaError(errors.SCHEMA_ERROR_MISSING)"; "if document is None: raise DocumentError(errors.DOCUMENT_MISSING)"; "if not isinstance(document, Mapping): raise DocumentError(errors.DOCUMENT_FORMAT.format(document))"; "self.error_handler.start(self)"];
+  f_validate_prologue := ["update=update"; "_unrequired_by_excludes=set()"];
+  (* documented: bulk rule sets and *of definitions are different validation contexts and must not share a key *)
+  f_cache_sites := [("validate", ""); ("check_with_bulk_schema", "turing"); ("check_with_schema", ""); ("validate_logical", "logical")];
+  f_cache_typed_scalars := true;
+  f_cache_per_class := true
 |}.
